@@ -158,6 +158,16 @@ def handle (op : String) (j : Json) : Option Json :=
         some (Json.mkObj [("total", ofNat total),
                           ("hist", ofList (fun kc => Json.arr #[ofNatList kc.1, ofNat kc.2]) hist)])
     | none => some badInput
+  else if op == "c11.relabel" then
+    -- the current code on the block whose haplotypes are listed in the orders `tau` / `ups` (Props.C11.poly_perm_invariant)
+    match getHaps? j "ph0", getHaps? j "ph1", getNatList? j "tau", getNatList? j "ups" with
+    | some ph0, some ph1, some tau, some ups =>
+      let q0 := relabelHaps tau ph0
+      let q1 := relabelHaps ups ph1
+      some (Json.mkObj [("ph0", ofList ofNatList q0), ("ph1", ofList ofNatList q1),
+                        ("block", match compareBlock true true q0 q1 with | some e => errJson e | none => Json.str "error"),
+                        ("orig", match compareBlock true true ph0 ph1 with | some e => errJson e | none => Json.str "error")])
+    | _, _, _, _ => some badInput
   else if op == "c11.run" then
     match getNat? j "ploidy", getBool? j "ignore", getBool? j "only_snvs", (getList? j "files").bind (·.mapM parseFile) with
     | some p, some ig, some os, some files =>
